@@ -87,6 +87,13 @@ theorem mania_calculator_literals_as_modelled : maniaCalcLiterals = [
 
 /-- numeric literals, per function and in source order, of the code `Model/PerfCalc.lean` transcribes -/
 theorem special_functions_literals_as_modelled : specialLiterals = [
+  ("const Y", ["0.0891314744949340820313"]),
+  ("const Y", ["2.249481201171875"]),
+  ("const Y", ["0.807220458984375"]),
+  ("const Y", ["0.93995571136474609375"]),
+  ("const Y", ["0.98362827301025390625"]),
+  ("const Y", ["0.99714565277099609375"]),
+  ("const Y", ["0.99941349029541015625"]),
   ("erf", ["0.0", "0.0", "1.0", "1.0"]),
   ("erf_inv", ["0.0", "0.0", "1.0", "-1.0", "0.0", "1.0", "-1.0", "1.0", "1.0"]),
   ("erf_imp", ["0.0", "-0.5", "2.0", "1.0", "0.5", "1e-10", "1.125", "0.003379167095512573896158903121545171688", "1.125", "110.0", "0.75", "0.5", "0.5", "0.3440242112_f32", "1.25", "0.75", "0.75", "0.419990927_f32", "2.25", "1.25", "1.25", "0.4898625016_f32", "3.5", "2.25", "2.25", "0.5317370892_f32", "5.25", "3.5", "3.5", "0.5489973426_f32", "8.0", "5.25", "5.25", "0.5571740866_f32", "11.5", "8.0", "8.0", "0.5609807968_f32", "17.0", "11.5", "11.5", "0.5626493692_f32", "24.0", "17.0", "17.0", "0.5634598136_f32", "38.0", "24.0", "24.0", "0.5638477802_f32", "60.0", "38.0", "38.0", "0.5640528202_f32", "85.0", "60.0", "60.0", "0.5641309023_f32", "85.0", "85.0", "0.5641584396_f32", "0.0", "1.0"]),
